@@ -14,8 +14,36 @@ use nom::number::complete::be_u8;
 use nom::sequence::{delimited, preceded, terminated};
 use nom::IResult;
 
+/// Deepest nesting of parentheses accepted in a filter string.
+///
+/// The grammar is parsed by recursive descent, one level of recursion for each level
+/// of nesting, so a filter string with unbounded nesting would exhaust the stack.
+const MAX_NESTING: usize = 128;
+
+/// Every `(` which the parser consumes opens a level and every `)` closes one: neither
+/// character can occur in an attribute description or, unescaped, in a value.
+fn nesting_within_limit(input: &[u8]) -> bool {
+    let mut depth = 0usize;
+    for &c in input {
+        match c {
+            b'(' => {
+                depth += 1;
+                if depth > MAX_NESTING {
+                    return false;
+                }
+            }
+            b')' => depth = depth.saturating_sub(1),
+            _ => (),
+        }
+    }
+    true
+}
+
 #[doc(hidden)]
 pub fn parse(input: impl AsRef<[u8]>) -> Result<Tag, ()> {
+    if !nesting_within_limit(input.as_ref()) {
+        return Err(());
+    }
     match filtexpr(input.as_ref()) {
         Ok((r, t)) => {
             if r.is_empty() {
